@@ -1,5 +1,5 @@
 from .. import facts
-from ..rules import factors, codec, image, status
+from ..rules import factors, codec, image, status, tables
 
 
 def run(ck):
@@ -25,6 +25,7 @@ def run(ck):
     codec.r11_yuy2_siblings(ck, P)
     codec.r18_yuv_clamps_are_signed(ck, P)
     codec.r19_sizeless_formats_expand_as_argb(ck, P)
+    tables.r1b_iter_entries(ck, P)        # C02-R1i: an iterator that reads bits directly is registered only for images without accessors
     codec.r12_simd_helpers(ck, P)
     image.r_hook_refreshes_unconditionally(ck, P, 'C10-R13')
     status.r19_13_shortcut_needs_plain_destination(ck, P, 'C10-R14')   # accessor equivalence: a raw shortcut bypasses read_func / write_func
